@@ -11,7 +11,7 @@ for d in sorted(glob.glob("/verif/seeded/*/")):
     if only and not any(sid.startswith(o) for o in only): continue
     if sid.startswith("benign"): continue
     m = json.load(open(d + "meta.json"))
-    prop = m["property"]; want = 0 if "classification" in m else 1
+    prop = m["property"]; want = 0 if "classification" in m else m.get("expect_exit", 1)
     sh(f"git -C /repo apply {d}patch.diff")
     try:
         t = time.time()
